@@ -32,6 +32,11 @@ pub enum PlanKind {
     /// The simulated disk takes this many more bytes in all (`idx` ignored): the write that crosses the
     /// limit is cut short and every later one fails with ENOSPC.
     Quota(u64),
+    /// Not a fault but a request (`idx` is a PRNG seed): before the incarnation runs, the same command is
+    /// rehearsed without faults on a copy of the disk, and faults of the given class are placed on the calls
+    /// it *really* made (0: benign set, 1: one hard fault, 2: a crash) - so that a program whose I/O pattern
+    /// differs from the predicted one (chunked or buffered transfers, temporary files) is faulted at its own calls.
+    Measured(u8),
 }
 
 #[derive(Clone, Debug, PartialEq, Serialize, Deserialize)]
@@ -93,6 +98,8 @@ pub struct Outcome {
     pub stdout: Vec<u8>,
     pub stderr: Vec<u8>,
     pub trace: Vec<TraceLine>,
+    /// The plan the incarnation ran under, `Measured` requests expanded.
+    pub plan_used: Vec<PlanEntry>,
 }
 
 impl Outcome {
@@ -142,6 +149,7 @@ pub fn errno_name(e: i32) -> &'static str {
         24 => "EMFILE",
         28 => "ENOSPC",
         30 => "EROFS",
+        32 => "EPIPE",
         38 => "ENOSYS",
         122 => "EDQUOT",
         _ => "E?",
@@ -158,6 +166,7 @@ pub const ENOSPC: i32 = 28;
 pub const EROFS: i32 = 30;
 pub const EDQUOT: i32 = 122;
 pub const ENOSYS: i32 = 38;
+pub const EPIPE: i32 = 32;
 
 static DISK_COUNTER: AtomicU64 = AtomicU64::new(0);
 
@@ -229,6 +238,7 @@ fn render_plan(plan: &[PlanEntry]) -> String {
             PlanKind::StatSize(n) => s.push_str(&format!("{} statsize {}\n", e.idx, n)),
             PlanKind::StatErr(errno) => s.push_str(&format!("{} staterr {}\n", e.idx, errno)),
             PlanKind::Quota(n) => s.push_str(&format!("{} quota {}\n", e.idx, n)),
+            PlanKind::Measured(_) => {}
         }
     }
     s
@@ -272,7 +282,8 @@ pub fn run_incarnation(ctx: &Ctx, disk: &Disk, inc: &Incarnation, seq: usize) ->
     let trace_path = disk.ctl.join(format!("trace{}", seq));
     let out_path = disk.ctl.join(format!("stdout{}", seq));
     let err_path = disk.ctl.join(format!("stderr{}", seq));
-    std::fs::write(&plan_path, render_plan(&inc.plan)).expect("plan file");
+    let plan = expand_measured(ctx, disk, inc, seq);
+    std::fs::write(&plan_path, render_plan(&plan)).expect("plan file");
     let _ = std::fs::remove_file(&trace_path);
     let stdout = std::fs::File::create(&out_path).expect("stdout file");
     let stderr = std::fs::File::create(&err_path).expect("stderr file");
@@ -334,7 +345,59 @@ pub fn run_incarnation(ctx: &Ctx, disk: &Disk, inc: &Incarnation, seq: usize) ->
         Some(st) => (st.code(), if killed_after_panic || timed_out { None } else { st.signal() }),
         None => (None, None),
     };
-    Outcome { exit, signal, timed_out, panicked, panic_site, stdout, stderr, trace }
+    Outcome { exit, signal, timed_out, panicked, panic_site, stdout, stderr, trace, plan_used: plan }
+}
+
+fn copy_tree(from: &Path, to: &Path) {
+    let _ = std::fs::create_dir_all(to);
+    if let Ok(rd) = std::fs::read_dir(from) {
+        let mut entries: Vec<_> = rd.flatten().collect();
+        entries.sort_by_key(|e| e.file_name());
+        for e in entries {
+            let (src, dst) = (e.path(), to.join(e.file_name()));
+            if src.is_dir() {
+                copy_tree(&src, &dst);
+            } else {
+                let _ = std::fs::copy(&src, &dst);
+            }
+        }
+    }
+}
+
+/// Expand `Measured` requests: rehearse the command without faults on a copy of the disk and place the
+/// faults on the calls it really made. A pure function of (disk, incarnation, code).
+fn expand_measured(ctx: &Ctx, disk: &Disk, inc: &Incarnation, seq: usize) -> Vec<PlanEntry> {
+    let mut plan: Vec<PlanEntry> = inc.plan.iter().filter(|e| !matches!(e.kind, PlanKind::Measured(_))).cloned().collect();
+    let requests: Vec<(u64, u8)> = inc.plan.iter().filter_map(|e| if let PlanKind::Measured(c) = e.kind { Some((e.idx, c)) } else { None }).collect();
+    if requests.is_empty() {
+        return plan;
+    }
+    let n = DISK_COUNTER.fetch_add(1, Ordering::Relaxed);
+    let base = ctx.disk_root.join(format!("{}", std::process::id())).join(format!("d{}", n));
+    let rehearsal = Disk { root: base.join("disk"), ctl: base.join("ctl"), base };
+    let _ = std::fs::remove_dir_all(&rehearsal.base);
+    copy_tree(&disk.root, &rehearsal.root);
+    let _ = std::fs::create_dir_all(&rehearsal.ctl);
+    let plain = Incarnation { plan: Vec::new(), ..inc.clone() };
+    let r = run_incarnation(ctx, &rehearsal, &plain, seq);
+    let shape: Vec<TraceLine> = r.trace.iter().filter(|t| t.call != "stat").cloned().collect();
+    for (seed, class) in requests {
+        let mut rng = Rng::for_stream(seed, 0x4d45_4153);
+        match class {
+            0 => plan.extend(benign_plan(&mut rng, &shape, 0.35)),
+            1 => {
+                if let Some((e, _)) = hard_fault(&mut rng, &shape) {
+                    plan.push(e);
+                }
+            }
+            _ => {
+                if !shape.is_empty() {
+                    plan.push(PlanEntry { idx: rng.below(shape.len() as u64), kind: PlanKind::Crash });
+                }
+            }
+        }
+    }
+    plan
 }
 
 /// Marker of an argument given as raw bytes (arguments are byte strings on Unix; replay files are JSON):
@@ -440,7 +503,7 @@ pub fn hard_fault(rng: &mut Rng, shape: &[TraceLine]) -> Option<(PlanEntry, Stri
             }
         }
         "read" => (EIO, "read"),
-        _ => (*rng.pick(&[ENOSPC, EIO, EDQUOT]), "write"),
+        _ => (*rng.pick(&[ENOSPC, EIO, EDQUOT, EPIPE]), "write"),
     };
     Some((PlanEntry { idx: t.idx, kind: PlanKind::Err(errno) }, format!("{}:{}", class, errno_name(errno))))
 }
